@@ -20,7 +20,7 @@ RULE = ("seeded small smooth models (1-3 nodes, one node per type so that initia
         "(spec hash, run settings)")
 DECIDING = ['trace_calls_checked', 'rows_compared', 'index_checks', 'cutoff_checks', 'adaptive_points_compared',
             'heun_runs', 'euler_runs', 'scipy_runs', 'order_checks', 'durations_with_quotient_just_below_integer', 'oscillator_runs',
-            'explicit_time_rows']
+            'explicit_time_rows', 'other_backend_rows']
 ASSUMPTIONS = ['main sweep: sampling step is an integer multiple of the step, T an integer multiple of the sampling step (other durations: probe family of the recorded finding F-C03-duration-not-multiple-of-sampling-step)',
                'cutoff is either 0, a half-way point between samples or exactly representable',
                'Heun on a time-dependent RHS: either stage-time convention accepted']
@@ -39,6 +39,10 @@ def plan(tier, seed):
     cases += [{'family': 'main', 'cseed': rnd.randrange(1 << 30), 'solver': 'order'} for _ in range(k)]
     # relaxation oscillators over several time units with adaptive solvers at moderate tolerance (steps get rejected)
     cases += [{'family': 'oscillator', 'cseed': rnd.randrange(1 << 30), 'solver': 'oscillator'} for _ in range(10 if tier == 'quick' else 200)]
+    # the stepping / storage loops of the other backends (sampling step = 2-5 steps, extrinsic input)
+    for b in ('jax', 'torch', 'fortran'):
+        cases += [{'family': 'other_backends', 'cseed': rnd.randrange(1 << 30), 'solver': 'fixed', 'backend': b, 'mode': 'run_fixed', 'prec': 'float64',
+                   'force_sampling': True} for _ in range(6 if tier == 'quick' else 80)]
     # equations that refer to the time t explicitly: adaptive solvers (main sweep) and fixed-step solvers (recorded finding)
     cases += [{'family': 'explicit_time', 'cseed': rnd.randrange(1 << 30), 'solver': 'scipy'} for _ in range(6 if tier == 'quick' else 80)]
     fam = 'probe:duration_not_multiple_of_sampling_step' if 'duration_not_multiple_of_sampling_step' in open_risks(PID) else 'duration'
@@ -189,7 +193,27 @@ def run_duration_case(case, ctx):
     return res
 
 
+def run_other_backend_case(case, ctx):
+    """Fixed-step runs on the torch / jax / fortran backends with a sampling step of 2-5 integration steps and an extrinsic input:
+    every backend has its own stepping and storage loop (comparison with the reference iterates by vp/props/c02.py)."""
+    from vp.props import c02
+    import mpmath
+    mpmath.mp.dps = 40
+    ctx2 = dict(ctx)
+    ctx2.update(mp=mpmath, open_risks=open_risks('C02'), excluded=open_risks('C01') | open_risks('C04') | open_risks('C09'))
+    res = c02.run_case(dict(case, family='sampling'), ctx2)
+    res['risk'] = []
+    m = res.setdefault('mech', {})
+    if res.get('status') == 'ok':
+        m['other_backend_rows'] = m.get('rows_compared', 0)
+        m[case['backend'] + '_fixed_step_runs'] = 1
+    res['features'] = list(res.get('features', [])) + ['other_backend']
+    return res
+
+
 def run_case(case, ctx):
+    if case.get('family') == 'other_backends':
+        return run_other_backend_case(case, ctx)
     if case.get('family') in ('explicit_time', 'probe:explicit_time_fixed_step'):
         return run_explicit_time_case(case, ctx)
     if case.get('family') in ('duration', 'probe:duration_not_multiple_of_sampling_step'):
@@ -471,6 +495,6 @@ def order_check(spec, ref, keys, outputs, rnd, mech):
 MANIFEST = {
     'technique': 'online trace checker on the RHS call sequence recorded inside BaseBackend.run + offline comparison of the returned DataFrame with independent reference iterates / tight-tolerance solutions',
     'level_text': 'For each generated model and random (T, dt, dts, cutoff, solver) the recorded sequence of vector-field calls is checked against the Euler/Heun stepping protocol (step counter, state passed, values returned at call time, predictor), the DataFrame is checked for shape, index, cutoff, first row and storage cadence, and its values are compared with the reference iterates of the independent reference RHS (1e-7) or, for scipy methods RK45/DOP853/Radau/LSODA, with a 1e-12 reference solution (50*rtol); both Heun stages use the input sample of their step; an order-of-convergence monitor checks Euler ratio ~2 and Heun ~4. Durations are given as exact binary values, as products and as the decimal literals a user writes, preferring T whose float quotient T/dt lies just below the integer step count. Relaxation oscillators integrated with scipy methods at rtol 1e-6 are judged against the error that the same method and tolerances reach on the reference right-hand side (5x + 20*rtol; rejected steps). Equations with an explicit t: adaptive solvers in the main sweep, euler / heun as probe family of a recorded finding; durations that are no multiple of the sampling step: probe family of a recorded finding. Held on the observed runs only.',
-    'level_note': 'Trusted: vp/ref.py reference RHS and integrators, scipy DOP853 at rtol 1e-12 as the adaptive reference. Default backend only (other backends are covered under C02). Models are smooth and moderately stable by construction.',
+    'level_note': 'Trusted: vp/ref.py reference RHS and integrators, scipy DOP853 at rtol 1e-12 as the adaptive reference. Mainly the default backend; a family of fixed-step runs with coarser sampling and inputs on torch / jax / fortran shares its machinery with C02. Models are smooth and moderately stable by construction.',
 }
 # MANIFEST-END
